@@ -1,10 +1,12 @@
 """np.random shims.  nuSpaceSim draws through the module-level functions np.random.{rand, uniform, random,
-random_sample}, which are looked up at call time, so they can be wrapped without touching the repository."""
+random_sample}, which are looked up at call time, so they can be wrapped without touching the repository.  The other
+distribution functions an implementation may reasonably switch to (exponential and normal families) are derived from the same
+prescribed uniforms by inverse transform (E = -ln u, Z = Phi^-1(u)), so that "fixed random numbers" stays fixed."""
 import contextlib
 
 import numpy as np
 
-_NAMES = ("rand", "uniform", "random", "random_sample")
+_NAMES = ("rand", "uniform", "random", "random_sample", "standard_exponential", "exponential", "standard_normal", "normal", "randn")
 
 
 @contextlib.contextmanager
@@ -31,10 +33,36 @@ def patched(uniform01):
     def random(size=None):
         return uniform01(_shape(size))
 
+    def standard_exponential(size=None, *a, **k):
+        with np.errstate(divide="ignore"):
+            return -np.log(uniform01(_shape(size)))
+
+    def exponential(scale=1.0, size=None):
+        if size is None:
+            size = np.shape(scale) or None
+        return np.asarray(scale) * standard_exponential(size)
+
+    def standard_normal(size=None, *a, **k):
+        from scipy.special import ndtri
+        return ndtri(np.clip(uniform01(_shape(size)), 1e-300, 1 - 1e-16))
+
+    def normal(loc=0.0, scale=1.0, size=None):
+        if size is None:
+            size = np.broadcast(np.asarray(loc), np.asarray(scale)).shape or None
+        return np.asarray(loc) + np.asarray(scale) * standard_normal(size)
+
+    def randn(*shape):
+        return standard_normal(tuple(int(x) for x in shape))
+
     np.random.uniform = uniform
     np.random.rand = rand
     np.random.random = random
     np.random.random_sample = random
+    np.random.standard_exponential = standard_exponential
+    np.random.exponential = exponential
+    np.random.standard_normal = standard_normal
+    np.random.normal = normal
+    np.random.randn = randn
     try:
         yield
     finally:
